@@ -247,6 +247,141 @@ def _export_binary(fn: ast.FunctionDef) -> dict:
     return out
 
 
+
+# ------------------------------------------------------------------------------------------------ scalar codecs
+def _top_func(tree: ast.Module, name: str) -> ast.FunctionDef:
+    for n in tree.body:
+        if isinstance(n, ast.FunctionDef) and n.name == name:
+            return n
+    _fail(f'function {name} not found')
+
+
+def _body(fn: ast.FunctionDef) -> list[ast.stmt]:
+    """Statements of a function without its docstring."""
+    b = list(fn.body)
+    if b and isinstance(b[0], ast.Expr) and isinstance(b[0].value, ast.Constant) and isinstance(b[0].value.value, str):
+        b = b[1:]
+    return b
+
+
+def _binconv_shapes(tree: ast.Module) -> None:
+    """_binconv_basic / _binconv_cls must be the recognised closures over `shape = Struct(fmt)`."""
+    basic = [ast.unparse(x) for x in _body(_top_func(tree, '_binconv_basic'))]
+    want_basic = ['shape = Struct(fmt)',
+                  None,       # def unpack
+                  'ns = globals()', "ns['_struct_' + name] = shape", "ns[f'_conv_{name}_to_binary'] = shape.pack",
+                  "ns[f'_conv_binary_to_{name}'] = unpack"]
+    fb = _body(_top_func(tree, '_binconv_basic'))
+    if len(basic) != len(want_basic) or any(w is not None and w != g for w, g in zip(want_basic, basic)):
+        _fail(f'_binconv_basic: unrecognised body {basic}')
+    inner = fb[1]
+    if not (isinstance(inner, ast.FunctionDef) and inner.name == 'unpack'
+            and [ast.unparse(x) for x in _body(inner)] == ['[val] = shape.unpack(byt)', 'return val']):
+        _fail('_binconv_basic: unrecognised inner unpack')
+    cls = [ast.unparse(x) for x in _body(_top_func(tree, '_binconv_cls'))]
+    if cls != ['shape = Struct(fmt)', 'ns = globals()', "ns['_struct_' + name] = shape",
+               "ns[f'_conv_{name}_to_binary'] = lambda val: shape.pack(*val)",
+               "ns[f'_conv_binary_to_{name}'] = lambda byt: Tup(*shape.unpack(byt))"]:
+        _fail(f'_binconv_cls: unrecognised body {cls}')
+
+
+ROUNDERS = {'round': 'RNearestEven', 'int': 'RTrunc', 'math.floor': 'RFloor', 'floor': 'RFloor',
+            'math.ceil': 'RCeil', 'ceil': 'RCeil', 'math.trunc': 'RTrunc', 'trunc': 'RTrunc'}
+
+
+def _int_valued_float(node: ast.AST, where) -> int:
+    if not (isinstance(node, ast.Constant) and isinstance(node.value, (int, float)) and not isinstance(node.value, bool)
+            and float(node.value) == int(node.value) and abs(node.value) < 2 ** 53):
+        _fail(f'scale constant `{ast.unparse(node)}` is not an integer-valued number', where)
+    return int(node.value)
+
+
+def _time_codec(tree: ast.Module) -> dict:
+    """_conv_time_to_binary: `return _struct_time.pack(ROUND(tim.value * C))`;
+    _conv_binary_to_time: `[num] = _struct_time.unpack(byt); return Time(num / C)`."""
+    w = _top_func(tree, '_conv_time_to_binary')
+    arg = w.args.args[0].arg if len(w.args.args) == 1 else _fail('_conv_time_to_binary: one parameter expected', w)
+    b = _body(w)
+    if not (len(b) == 1 and isinstance(b[0], ast.Return) and isinstance(b[0].value, ast.Call)
+            and ast.unparse(b[0].value.func) == '_struct_time.pack' and len(b[0].value.args) == 1 and not b[0].value.keywords):
+        _fail('_conv_time_to_binary: `return _struct_time.pack(...)` expected', w)
+    inner = b[0].value.args[0]
+    if not (isinstance(inner, ast.Call) and ast.unparse(inner.func) in ROUNDERS and len(inner.args) == 1 and not inner.keywords):
+        _fail(f'_conv_time_to_binary: unrecognised integer conversion `{ast.unparse(inner)}`', w)
+    prod = inner.args[0]
+    if not (isinstance(prod, ast.BinOp) and isinstance(prod.op, ast.Mult)):
+        _fail(f'_conv_time_to_binary: unrecognised scaling `{ast.unparse(prod)}`', w)
+    if ast.unparse(prod.left) == f'{arg}.value':
+        mul = _int_valued_float(prod.right, w)
+    elif ast.unparse(prod.right) == f'{arg}.value':
+        mul = _int_valued_float(prod.left, w)
+    else:
+        _fail(f'_conv_time_to_binary: unrecognised scaling `{ast.unparse(prod)}`', w)
+    r = _top_func(tree, '_conv_binary_to_time')
+    rb = _body(r)
+    rarg = r.args.args[0].arg if len(r.args.args) == 1 else _fail('_conv_binary_to_time: one parameter expected', r)
+    if not (len(rb) == 2 and ast.unparse(rb[0]) == f'[num] = _struct_time.unpack({rarg})' and isinstance(rb[1], ast.Return)
+            and isinstance(rb[1].value, ast.Call) and ast.unparse(rb[1].value.func) == 'Time' and len(rb[1].value.args) == 1
+            and not rb[1].value.keywords and isinstance(rb[1].value.args[0], ast.BinOp)
+            and isinstance(rb[1].value.args[0].op, ast.Div) and ast.unparse(rb[1].value.args[0].left) == 'num'):
+        _fail('_conv_binary_to_time: `[num] = _struct_time.unpack(byt); return Time(num / C)` expected', r)
+    div = _int_valued_float(rb[1].value.args[0].right, r)
+    return {'round': ROUNDERS[ast.unparse(inner.func)], 'mul': mul, 'div': div, 'line': w.lineno}
+
+
+def _mat_index(node: ast.AST, var: str, where) -> tuple[int, int]:
+    if not (isinstance(node, ast.Subscript) and ast.unparse(node.value) == var and isinstance(node.slice, ast.Tuple)
+            and len(node.slice.elts) == 2 and all(isinstance(e, ast.Constant) and isinstance(e.value, int) and e.value >= 0
+                                                  for e in node.slice.elts)):
+        _fail(f'unrecognised matrix cell `{ast.unparse(node)}`', where)
+    return node.slice.elts[0].value, node.slice.elts[1].value
+
+
+def _matrix_codec(tree: ast.Module) -> dict:
+    w = _top_func(tree, '_conv_matrix_to_binary')
+    arg = w.args.args[0].arg if len(w.args.args) == 1 else _fail('_conv_matrix_to_binary: one parameter expected', w)
+    b = _body(w)
+    if not (len(b) == 1 and isinstance(b[0], ast.Return) and isinstance(b[0].value, ast.Call)
+            and ast.unparse(b[0].value.func) == '_struct_matrix.pack' and not b[0].value.keywords):
+        _fail('_conv_matrix_to_binary: `return _struct_matrix.pack(...)` expected', w)
+    slots = []
+    for a in b[0].value.args:
+        if isinstance(a, ast.Constant) and isinstance(a.value, (int, float)) and not isinstance(a.value, bool) and a.value in (0, 1):
+            slots.append('MOne' if a.value == 1 else 'MZero')
+        else:
+            r, c = _mat_index(a, arg, w)
+            slots.append(f'MCell {r} {c}')
+    r = _top_func(tree, '_conv_binary_to_matrix')
+    rarg = r.args.args[0].arg if len(r.args.args) == 1 else _fail('_conv_binary_to_matrix: one parameter expected', r)
+    rb = _body(r)
+    if not (len(rb) >= 3 and ast.unparse(rb[0]) == f'data = _struct_matrix.unpack({rarg})' and ast.unparse(rb[1]) == 'mat = Matrix()'
+            and ast.unparse(rb[-1]) == 'return mat.freeze()'):
+        _fail('_conv_binary_to_matrix: unrecognised frame', r)
+    cells = []
+    for st in rb[2:-1]:
+        if not (isinstance(st, ast.Assign) and len(st.targets) == 1):
+            _fail(f'_conv_binary_to_matrix: unrecognised statement `{ast.unparse(st)}`', st)
+        tg, val = st.targets[0], st.value
+        tgs = list(tg.elts) if isinstance(tg, ast.Tuple) else [tg]
+        if not (isinstance(val, ast.Subscript) and ast.unparse(val.value) == 'data'):
+            _fail(f'_conv_binary_to_matrix: unrecognised source `{ast.unparse(val)}`', st)
+        sl = val.slice
+        if isinstance(sl, ast.Slice):
+            if not (sl.step is None and isinstance(sl.lower, ast.Constant) and isinstance(sl.upper, ast.Constant)
+                    and isinstance(sl.lower.value, int) and isinstance(sl.upper.value, int)
+                    and 0 <= sl.lower.value and sl.upper.value - sl.lower.value == len(tgs) and isinstance(tg, ast.Tuple)):
+                _fail(f'_conv_binary_to_matrix: slice `{ast.unparse(val)}` does not match its {len(tgs)} targets', st)
+            idx = list(range(sl.lower.value, sl.upper.value))
+        elif isinstance(sl, ast.Constant) and isinstance(sl.value, int) and sl.value >= 0 and not isinstance(tg, ast.Tuple):
+            idx = [sl.value]
+        else:
+            _fail(f'_conv_binary_to_matrix: unrecognised index `{ast.unparse(val)}`', st)
+        for t, i in zip(tgs, idx):
+            rr, cc = _mat_index(t, 'mat', st)
+            cells.append((rr, cc, i))
+    return {'pack': slots, 'unpack': cells, 'line': w.lineno}
+
+
 # ------------------------------------------------------------------------------------------------ KV2
 KV2_FIELDS = {'self.type': 'type', 'self.name': 'name', 'attr.name': 'attrname', 'str_value': 'array_value',
               'attr.val_str': 'scalar_value'}
@@ -372,6 +507,9 @@ def translate() -> tuple[str, dict]:
     # VAL_TYPE_TO_IND / ARRAY_OFFSET / IND_TO_VALTYPE
     table = offset = ind_ok = None
     structs: dict[str, tuple[int, int]] = {}
+    fmts: dict[str, str] = {}
+    splat: dict[str, bool] = {}
+    ctor: dict[str, str] = {}
     for n in tree.body:
         tgt = None
         if isinstance(n, ast.AnnAssign) and isinstance(n.target, ast.Name):
@@ -401,11 +539,21 @@ def translate() -> tuple[str, dict]:
                     and isinstance(val.args[0], ast.Constant)):
                 _fail(f'{tgt}: unrecognised struct', n)
             structs[tgt[len('_struct_'):]] = (_calcsize(val.args[0].value, n), n.lineno)
+            fmts[tgt[len('_struct_'):]] = val.args[0].value
         elif isinstance(n, ast.Expr) and isinstance(n.value, ast.Call) and ast.unparse(n.value.func) in ('_binconv_basic', '_binconv_cls'):
             a = n.value.args
             if not (len(a) >= 2 and isinstance(a[0], ast.Constant) and isinstance(a[1], ast.Constant)):
                 _fail('unrecognised _binconv call', n)
             structs[a[0].value] = (_calcsize(a[1].value, n), n.lineno)
+            if a[0].value in fmts:
+                _fail(f'two struct definitions for {a[0].value}', n)
+            fmts[a[0].value] = a[1].value
+            is_cls = ast.unparse(n.value.func) == '_binconv_cls'
+            if n.value.keywords or len(a) != (3 if is_cls else 2) or (is_cls and not isinstance(a[2], ast.Name)):
+                _fail('unrecognised _binconv call', n)
+            splat[a[0].value] = is_cls
+            if is_cls:
+                ctor[a[0].value] = a[2].id
     if table is None or offset is None or not ind_ok:
         _fail('VAL_TYPE_TO_IND / ARRAY_OFFSET / IND_TO_VALTYPE not all found')
     # SIZES: sizes[t] = _struct_<t.name.casefold()>.size for t not STRING/BINARY
@@ -428,10 +576,33 @@ def translate() -> tuple[str, dict]:
     kv2 = _export_kv2(_func(tree, 'Element', '_export_kv2'))
     kv2_stub, kv2_stub_line = _kv2_stubs([_func(tree, 'Element', 'parse_kv2'), _func(tree, 'Element', '_parse_kv2_element')])
     kv1 = _kv1(tree)
+    # scalar codecs
+    _binconv_shapes(tree)
+    tcodec = _time_codec(tree)
+    mcodec = _matrix_codec(tree)
+    for key in ('time', 'matrix'):
+        if key in splat:
+            _fail(f'{key} is built by _binconv_*, expected its own conversion functions')
+    fmt_rows, splat_rows, ctor_rows = [], [], []
+    for coq, member in canon_names.items():
+        if coq in ('TString', 'TBinary', 'TElement'):
+            continue
+        key = member.casefold()
+        fmt_rows.append((coq, fmts[key]))
+        if key in splat:
+            splat_rows.append((coq, splat[key]))
+        elif key not in ('time', 'matrix'):
+            _fail(f'no _binconv_* call for ValueType.{member}')
+        if key in ctor:
+            ctor_rows.append((coq, ctor[key]))
+    for _, f in fmt_rows:
+        if not re.fullmatch(r'[<0-9a-zA-Z?]*', f):
+            _fail(f'struct format {f!r} has characters outside the modelled language')
     side.update(table=[(c, i) for c, i, _ in table], offset=offset, split_cmp=pb['split_cmp'], split_line=pb['split_line'],
                 sizes=sizes, stub_written=eb['stub_written'], stub_line=eb['stub_line'],
                 enc_read={k: v[0] for k, v in pb['enc_read'].items()}, enc_write={k: v[0] for k, v in eb['enc_write'].items()},
                 enc_read_lines={k: v[1] for k, v in pb['enc_read'].items()},
+                formats=fmt_rows, time_codec=tcodec, matrix_codec=mcodec, ctor=ctor_rows,
                 kv2_fields=kv2, kv2_stub_keeps_uuid=kv2_stub, kv2_stub_line=kv2_stub_line, kv1=kv1,
                 digests={f: ast_digest(_func(tree, 'Element', f)) for f in
                          ('parse_bin', 'export_binary', 'export_kv2', '_export_kv2', 'parse_kv2', '_parse_kv2_element')})
@@ -441,7 +612,7 @@ def translate() -> tuple[str, dict]:
     b = lambda x: 'true' if x else 'false'
     lines = [
         '(* GENERATED by translate/c14_dmx.py from /repo/src/srctools/dmx.py. Do not edit. *)',
-        'From Coq Require Import NArith List.', 'From SV Require Import Fmt.DmxCodes Fmt.DmxKv1.', 'Import ListNotations.',
+        'From Coq Require Import NArith ZArith List String.', 'From SV Require Import Fmt.DmxCodes Fmt.DmxKv1 Fmt.DmxScalar.', 'Import ListNotations.',
         'Open Scope N_scope.',
         'Definition gen_cfg : dmxcfg := {|',
         '  code_table := [' + '; '.join(f'({c}, {i})' for c, i, _ in table) + '];',
@@ -452,6 +623,17 @@ def translate() -> tuple[str, dict]:
         f'  enc_write := {encfun(eb["enc_write"])};',
         f'  enc_read := {encfun(pb["enc_read"])};',
         '|}.',
+        '(* fixed-width value codecs: struct formats, TIME rounding and scales, MATRIX slot layout *)',
+        'Definition gen_scalar : scalarcfg := {|',
+        '  sc_formats := [' + '; '.join(f'({c}, "{f}"%string)' for c, f in fmt_rows) + '];',
+        '  sc_splat := [' + '; '.join(f'({c}, {b(v)})' for c, v in splat_rows) + '];',
+        f'  sc_time_round := {tcodec["round"]};',
+        f'  sc_time_mul := ({tcodec["mul"]})%Z;',
+        f'  sc_time_div := ({tcodec["div"]})%Z;',
+        '  sc_mat_pack := [' + '; '.join(mcodec['pack']) + '];',
+        '  sc_mat_unpack := [' + '; '.join(f'({r}, {c}, {i})' for r, c, i in mcodec['unpack']) + '];',
+        '|}.',
+        'Definition gen_ctor_classes : list (vtype * string) := [' + '; '.join(f'({c}, "{k}"%string)' for c, k in ctor_rows) + '].',
         '(* KeyValues2 writer: is each interpolated string field escaped, and encoded with the file codec? *)',
     ]
     for k in sorted(kv2):
